@@ -80,6 +80,23 @@ def run(ctx) -> None:
     alone = {str(f[-1]["argv"]) for _, f, _ in run_sequence(I, [b])}
     ctx.check(got == alone and got, "C15.B3.flags-per-instance", "GNUObjdumpDisassembler.__init__", str(sorted(got ^ alone))[:200],
               "a second binary operation gets exactly its own section flags")
+    # B5: whatever `style` a rule may name, objdump is never asked for Intel syntax (objdump's selectors for it are the
+    # case-sensitive option names intel / intel-mnemonic; anything else after -M leaves AT&T output, and the property
+    # pins the binary route to the -M att text)
+    import re as _re
+    for st in ("intel", "att"):
+        runs = run_sequence(I, [{"config": {"style": st}, "file_type": "binary"}])
+        bad = set()
+        for path, facts, results in runs:
+            for av in facts[0]["argv"]:
+                m = _re.findall(r"'-M', ([^,\]]+)", av)
+                for x in m:
+                    if not _re.fullmatch(r"'[^']*'", x) or x.strip("'") in ("intel", "intel-mnemonic") or "intel" in x.strip("'").split(","):
+                        bad.add(f"-M {x}")
+                if not m:
+                    bad.add(f"no -M flag in {av}"[:80])
+        ctx.check(bool(runs) and not bad, "C15.B5.never-intel-syntax", f"binary route, style={st}", ";".join(sorted(bad))[:200],
+                  "the -M argument is a literal that objdump does not read as an Intel-syntax selector")
     # B4: the syntax flag is the current rule's (att unless the rule says otherwise), whatever ran before
     for prev in ({"config": {"style": "intel"}, "file_type": "binary"}, {"config": {"style": "intel"}, "file_type": "assembly"}):
         nxt = {"config": {}, "file_type": "binary"}
